@@ -19,6 +19,7 @@ import (
 	metav1 "k8s.io/apimachinery/pkg/apis/meta/v1"
 	"k8s.io/apimachinery/pkg/types"
 
+	kaiv1alpha1 "github.com/NVIDIA/KAI-scheduler/pkg/apis/kai/v1alpha1"
 	enginev2 "github.com/NVIDIA/KAI-scheduler/pkg/apis/scheduling/v2"
 	enginev2alpha2 "github.com/NVIDIA/KAI-scheduler/pkg/apis/scheduling/v2alpha2"
 	commonconstants "github.com/NVIDIA/KAI-scheduler/pkg/common/constants"
@@ -80,6 +81,14 @@ type Job struct {
 	LastStart int    `json:"lastStart"` // seconds since last start, -1 = never
 	Shape     int    `json:"shape"`     // jobs with equal shape > 0 are "comparable" (same template, gang shape, preemptibility)
 	Subs      []Sub  `json:"subs"`      // optional flat sub-groups (pod sets); Min is then the sum of their minimums
+	Topo      string `json:"topo"`      // name of the topology the job is constrained by ("" = none; may name a missing one)
+	TopoReq   int    `json:"topoReq"`   // required level: 1-based index into the scenario topology's levels (0 = none)
+}
+
+// Topology is the (single) topology CRD object of a scenario: node label keys, coarsest first.
+type Topology struct {
+	Name   string   `json:"name"`
+	Levels []string `json:"levels"`
 }
 
 // Sub is one pod set of a job.
@@ -149,6 +158,7 @@ type Scenario struct {
 	Queues []Queue `json:"queues"`
 	Jobs   []Job   `json:"jobs"`
 	Pods   []Pod   `json:"pods"`
+	Topo   Topology `json:"topo"`
 }
 
 var Epoch = time.Now().Add(-100 * time.Hour).Truncate(time.Second)
@@ -162,6 +172,9 @@ func (sc *Scenario) Normalize() {
 		if n.Taints == nil {
 			n.Taints = []Taint{}
 		}
+	}
+	if sc.Topo.Levels == nil {
+		sc.Topo.Levels = []string{}
 	}
 	for i := range sc.Jobs {
 		if sc.Jobs[i].Subs == nil {
@@ -290,6 +303,14 @@ func BuildQueue(sc *Scenario, i int) *enginev2.Queue {
 	return obj
 }
 
+func BuildTopology(sc *Scenario) *kaiv1alpha1.Topology {
+	t := &kaiv1alpha1.Topology{ObjectMeta: metav1.ObjectMeta{Name: sc.Topo.Name, UID: types.UID("topo-" + sc.Topo.Name)}}
+	for _, l := range sc.Topo.Levels {
+		t.Spec.Levels = append(t.Spec.Levels, kaiv1alpha1.TopologyLevel{NodeLabel: l})
+	}
+	return t
+}
+
 func PrioClassName(v int) string { return fmt.Sprintf("prio-%d", v) }
 
 func BuildPriorityClass(v int) *schedulingv1.PriorityClass {
@@ -314,6 +335,12 @@ func BuildPodGroup(sc *Scenario, j int, now time.Time) *enginev2alpha2.PodGroup 
 			PriorityClassName: PrioClassName(job.Prio),
 			Preemptibility:    pre,
 		},
+	}
+	if job.Topo != "" {
+		pg.Spec.TopologyConstraint = enginev2alpha2.TopologyConstraint{Topology: job.Topo}
+		if job.TopoReq > 0 && job.TopoReq <= len(sc.Topo.Levels) {
+			pg.Spec.TopologyConstraint.RequiredTopologyLevel = sc.Topo.Levels[job.TopoReq-1]
+		}
 	}
 	for _, sub := range job.Subs {
 		sg := enginev2alpha2.SubGroup{Name: sub.Name, MinMember: int32(sub.Min)}
